@@ -43,7 +43,14 @@ def run(ctx, rep):
                       b.loc(t["line"]), sample={"impl": impl, "callee": d, "resolved": rd})
             # R6.2 buffer provenance
             o = b.origin(t["args"][1])
-            encs = [c for c in origin_calls(o) if c[1].endswith("Codec::encode")]
+            # every call the buffer may derive from, with variant projections resolved (so `Some(frame)` handed out by a helper
+            # and unpacked again is seen through)
+            mc = []
+            for alt in b.alternatives(o):
+                for c in b.may_calls(alt):
+                    if c[4] not in [x[4] for x in mc]:
+                        mc.append(c)
+            encs = [c for c in mc if c[1].endswith("Codec::encode")]
             okp = len(encs) == 1
             detail = "buffer does not originate from Codec::encode"
             if okp:
@@ -61,7 +68,7 @@ def run(ctx, rep):
                     if "ndex" in c[1] and len(c[3]) > 1 and c[3][1][0] == "const" and "RangeFull" in str(c[3][1]):
                         return False
                     return True
-                bad = [c[1] for c in origin_calls(o) if cuts(c)]
+                bad = [c[1] for c in mc if cuts(c)]
                 if bad:
                     okp = False
                     detail = "buffer is cut before being written (%s)" % bad
